@@ -101,7 +101,8 @@ fn case_fn(case: &mut Case) -> CaseResult {
     let gs = gen_schema(&mut case.ch, &so);
     let mut dopts = doc_opts_from_flags(case);
     dopts.max_frags = 4;
-    let (gd, _) = gen_doc(&mut case.ch, &gs.schema, &dopts);
+    let (mut gd, _) = gen_doc(&mut case.ch, &gs.schema, &dopts);
+    gd.doc = crate::props::c08::tame_exponential(case, &gs.schema, std::mem::take(&mut gd.doc));
     let mut doc = gd.doc.clone();
     if !case.is_excluded("json_variable_directives") {
     } else {
